@@ -41,6 +41,12 @@ type Settings struct {
 	// the frame this Settings was decoded from. It lets the receiver apply the
 	// window delta to open streams only when the value actually changed.
 	hasWindowSize bool
+
+	// present has a bit per parameter id that Read found in the frame. A
+	// SETTINGS frame changes the parameters it carries and no others
+	// (RFC 7540 6.5.3): the receiver merges it into what it has with MergeTo
+	// instead of replacing what it has with it.
+	present uint8
 }
 
 func (st *Settings) Type() FrameType {
@@ -59,6 +65,7 @@ func (st *Settings) Reset() {
 	st.rawSettings = st.rawSettings[:0]
 	st.ack = false
 	st.hasWindowSize = false
+	st.present = 0
 }
 
 // CopyTo copies st fields to st2.
@@ -72,6 +79,7 @@ func (st *Settings) CopyTo(st2 *Settings) {
 	st2.frameSize = st.frameSize
 	st2.headerSize = st.headerSize
 	st2.hasWindowSize = st.hasWindowSize
+	st2.present = st.present
 }
 
 // SetHeaderTableSize sets the maximum size of the header
@@ -168,6 +176,39 @@ func (st *Settings) MaxHeaderListSize() uint32 {
 	return st.headerSize
 }
 
+// Has reports whether the parameter id was in the frame st was read from.
+func (st *Settings) Has(id uint16) bool {
+	return id >= HeaderTableSize && id <= MaxHeaderListSize && st.present&(1<<id) != 0
+}
+
+// MergeTo applies the parameters that were in the frame st was read from to
+// dst and leaves the others in dst as they are.
+func (st *Settings) MergeTo(dst *Settings) {
+	if st.Has(HeaderTableSize) {
+		dst.tableSize = st.tableSize
+	}
+
+	if st.Has(EnablePush) {
+		dst.enablePush = st.enablePush
+	}
+
+	if st.Has(MaxConcurrentStreams) {
+		dst.maxStreams = st.maxStreams
+	}
+
+	if st.Has(MaxWindowSize) {
+		dst.windowSize = st.windowSize
+	}
+
+	if st.Has(MaxFrameSize) {
+		dst.frameSize = st.frameSize
+	}
+
+	if st.Has(MaxHeaderListSize) {
+		dst.headerSize = st.headerSize
+	}
+}
+
 // Read reads from d and decodes the read values into st.
 func (st *Settings) Read(d []byte) error {
 	var b []byte
@@ -180,6 +221,10 @@ func (st *Settings) Read(d []byte) error {
 		b = d[last:i]
 		key = uint16(b[0])<<8 | uint16(b[1])
 		value = uint32(b[2])<<24 | uint32(b[3])<<16 | uint32(b[4])<<8 | uint32(b[5])
+
+		if key >= HeaderTableSize && key <= MaxHeaderListSize {
+			st.present |= 1 << key
+		}
 
 		switch key {
 		case HeaderTableSize:
